@@ -23,7 +23,7 @@ func TestSim(t *testing.T) {
 		"C09": {Run: runC09},
 		"C05": {Run: runC05, Opt: simrt.Options{MaxSteps: 60000, StuckClause: "C05.deadlock", MaxStepsClause: "C05.livelock"}},
 		"C03": {Run: runHist("C03", genOpts{maxClusters: 2, maxSubs: 3, maxBackends: 4, maxWeight: 10, blackhole: true, zeroWeights: true, wlc: 1, sticky: 1, slowStart: true})},
-		"C04": {Run: runHist("C04", genOpts{maxClusters: 1, maxSubs: 2, maxBackends: 5, maxWeight: 10, wlc: 4, sticky: 0})},
+		"C04": {Run: runHist("C04", genOpts{maxClusters: 1, maxSubs: 2, maxBackends: 5, maxWeight: 6, zeroWeights: true, wlc: 4, sticky: 0})},
 		"C02": {Run: runHist("C02", genOpts{maxClusters: 2, maxSubs: 4, maxBackends: 5, maxWeight: 10, zeroWeights: true, wlc: 0, sticky: 2})},
 	})
 }
